@@ -192,11 +192,13 @@ namespace igris
         void erase(iterator first, iterator last)
         {
             size_t sz = last - first;
-            for (size_t i = 0; i < sz; ++i)
+            // shift the tail down by assignment, then destroy what is left
+            // over at the end
+            iterator newend = std::move(last, end(), first);
+            for (iterator it = newend; it != end(); ++it)
             {
-                igris::destructor(first + i);
+                igris::destructor(it);
             }
-            std::move(last, end(), first);
             m_size -= sz;
         }
 
